@@ -44,7 +44,15 @@ Definition diff_obs (m i : obs) : list N :=
 Fixpoint diff_steps (c : cfg) (s : st) (l : list (op * obs)) : list N :=
   match l with
   | [] => []
-  | (o, i) :: t => let '(s1, m) := step c s o in
+  | (o, i) :: t =>
+                   (* WHICH nodes the implementation chose for a new assembly is an input of the model, not a prediction:
+                      the model deploys to them if the choice is admissible (ascending, WorkerCount, registered and live);
+                      an inadmissible choice makes the model fall back to the lowest ids and shows as code 2 (+ spec 10/11) *)
+                   let s := match o_deps i with
+                            | d :: _ => fst (step c s (OChoose (d_ops d) (d_srs d)))
+                            | [] => s
+                            end in
+                   let '(s1, m) := step c s o in
                    match diff_obs m i with
                    | [] => diff_steps c s1 t
                    | ds => ds                      (* first divergence only: later steps follow from it *)
